@@ -21,6 +21,7 @@ func extractStages() {
 	excl := `ifutils.StringContainsSliceElements(items[i].GetURL().GetParsed().Host,config.Get().ExcludeHosts)||utils.StringContainsSliceElements(items[i].GetURL().String(),config.Get().ExcludeString)||matchRegexExclusion(items[i]){`
 	s.boolean("preIncludeShape", strings.Contains(ps, incl))
 	s.boolean("preExcludeShape", strings.Contains(ps, excl))
+	extractScope(s)
 	s.boolean("preIncludeBeforeExclude", strings.Index(ps, incl) >= 0 && strings.Index(ps, incl) < strings.Index(ps, excl))
 	reject := "ifitems[i].IsChild()||items[i].IsRedirection(){items[i].GetParent().RemoveChild(items[i])continue}items[i].SetStatus(models.ItemCompleted)return}"
 	s.boolean("preRejectRemovesChildCompletesSeed", strings.Count(ps, reject) == 2)
